@@ -24,5 +24,11 @@ PortionValue(lex) ==
        IF dot = 0 THEN [n |-> NatOf(body, 1, 0), d |-> 100]
        ELSE LET ip == SubSeq(body, 1, dot - 1)  fp == SubSeq(body, dot + 1, Len(body)) IN
             [n |-> NatOf(ip \o fp, 1, 0), d |-> 100 * Pow10(Len(fp))]
+\* numerals too long for TLC's integers are carried as digit strings: the canonical form drops leading zeros
+RECURSIVE DropZeros(_)
+DropZeros(s) == IF Len(s) > 1 /\ SubSeq(s, 1, 1) = "0" THEN DropZeros(SubSeq(s, 2, Len(s))) ELSE s
+IsLongRatio(lex) == LET sl == Find(lex, "/", 1) IN sl > 0 /\ (sl - 1 > 9 \/ Len(lex) - sl > 9)
+RatioNum(lex) == DropZeros(Strip(SubSeq(lex, 1, Find(lex, "/", 1) - 1)))
+RatioDen(lex) == DropZeros(Strip(SubSeq(lex, Find(lex, "/", 1) + 1, Len(lex))))
 
 =============================================================================
